@@ -161,6 +161,8 @@ def check_static(case, prebuilt=None):
     labels.add('decorated-function')
   if shape.get('far_ctor'):
     labels.add('class-with-other-constructor-in-a-base')
+  if shape.get('nested_host') and shape['kind'] == 'method':
+    labels.add('method-of-a-nested-or-local-class')
   full = built.selector
   parts = full.split('.')
   is_method = shape['kind'] == 'method'
@@ -351,6 +353,7 @@ def _static_case(draw):
   shape['method_api'] = 'register'
   if shape['kind'] == 'method':
     shape['method_contains_class'] = draw(st.booleans())
+    shape['nested_host'] = draw(st.sampled_from([None, None, 'class', 'function']))
   if shape['kind'] == 'function' and draw(st.integers(0, 2)) == 0:
     # the function is wrapped by 1-2 functools.wraps decorators before it is registered: its
     # configurable parameters are still those of the real signature
